@@ -212,13 +212,11 @@ pub fn replay(r: &Value) -> bool {
             }
             _ => {
                 println!("cases involving fresh reference keys/signatures are re-run through the leg (PQClean draws its own randomness)");
+                crate::util::not_replayable();
                 return false;
             }
         }
-        for v in &rep.violations {
-            println!("{}: {}", v.signature, v.detail);
-        }
-        rep.violations.is_empty()
+        crate::util::print_replay(&rep)
     }
     match r["variant"].as_str().unwrap_or("") {
         "falcon512" => go::<F512>(r),
